@@ -35,6 +35,7 @@ Needles == { <<6, 15, 15>>, <<106, 115, 115>>, <<106, 15, 15>>, <<2, 1, 18>>, <<
 PayFull == {PSub(w, ic) : w \in Needles, ic \in BOOLEAN}
            \cup {PRe(cls, w, <<>>, ic) : cls \in {"contains", "prefix", "suffix"}, w \in Needles, ic \in BOOLEAN}
            \cup {PRe("contains", w, <<>>, ic) : w \in {<<6, Dot, 15>>, <<106, Dot, Dot, 0>>}, ic \in BOOLEAN}
+           \cup {PRe("any", <<>>, <<>>, ic) : ic \in BOOLEAN} \cup {PRe("nostar", <<6>>, <<>>, ic) : ic \in BOOLEAN}
            \cup {PRe("alt", w, w2, ic) : w \in {<<106, 15, 15>>, <<2, 1, 18>>}, w2 \in {<<6, 15>>, <<102, 101>>}, ic \in BOOLEAN}
 PaySmall == { PSub(<<6, 15, 15>>, FALSE), PSub(<<6, 15, 15>>, TRUE), PSub(<<102, 101, 118>>, TRUE),
               PRe("prefix", <<6, 15>>, <<>>, FALSE), PRe("alt", <<106, 15, 15>>, <<102, 101>>, TRUE) }
@@ -48,8 +49,12 @@ IdFull == {Lit(w) : w \in Words(1, 5)}
           \cup {Re("contains", <<x, Dot, y>>, <<>>) : x \in Chars, y \in Chars}
           \cup {Re("prefix", <<Dot, x>>, <<>>) : x \in Chars}
           \cup {Re("contains", w, <<>>) : w \in {<<A, B, A, B>>, <<A, A, A, A>>}}
+          \* regexes that match the empty word
+          \cup {Re("any", <<>>, <<>>), Re("empty", <<>>, <<>>), Re("contains", <<>>, <<>>)}
+          \cup {Re(cls, <<x>>, <<>>) : cls \in {"opt", "nostar"}, x \in Chars}
+          \cup {Re("altempty", w, <<>>) : w \in {<<A>>, <<A, B>>}}
 IdSmall == { Lit(<<A, B>>), Lit(<<A, B, A, B, A>>), Re("contains", <<B, A>>, <<>>), Re("prefix", <<A>>, <<>>),
-             Re("alt", <<A, A>>, <<B, A>>), Re("contains", <<A, Dot, A>>, <<>>) }
+             Re("alt", <<A, A>>, <<B, A>>), Re("contains", <<A, Dot, A>>, <<>>), Re("any", <<>>, <<>>), Re("nostar", <<B>>, <<>>) }
 MsgIdsSmall == { Pad4(<<A>>), Pad4(<<A, B>>), Pad4(<<B, A>>), <<A, B, A, B>>, <<B, A, B, A>>, <<A, A, A, B>> }
 DefId == Pad4(<<A, B>>)
 
@@ -134,12 +139,12 @@ OneFailing0 == (en /\ \E s \in Specified(sl) : ~Match(Only(s), m)) => (Match(F, 
 TypeRules0 == /\ (sl[4].k = "mstp" /\ m.ext) => (TypeHolds(sl[4], m) = (Mstp(m.vmm) = sl[4].v % 8))
               /\ (sl[4].k = "vmm" /\ m.ext /\ Mtin(sl[4].v) # 0) => (TypeHolds(sl[4], m) = (m.vmm = sl[4].v))
               /\ (sl[4].k = "vmm" /\ m.ext /\ Mtin(sl[4].v) = 0) => (TypeHolds(sl[4], m) = (m.vmm % 16 = sl[4].v))
-\* a literal id is the regex that is anchored at both ends; ignoring case only adds matches
+\* a literal id is the regex that is anchored at both ends; ignoring case only adds matches (except for the negated class)
 LiteralIsExact0 == \A s \in 1..3 : sl[s].k = "lit" =>
                      LET x == IF s = 1 THEN m.ecu ELSE IF s = 2 THEN m.apid ELSE m.ctid
                          p == Pad4(sl[s].w)
                      IN IdHolds(sl[s], x) = (PatAt(p, x, 1) /\ Len(p) = Len(x))
-IgnoreCaseAdds0 == (sl[7].k # "none" /\ PayHolds(sl[7], m.text)) => PayHolds([sl[7] EXCEPT !.ic = TRUE], m.text)
+IgnoreCaseAdds0 == (sl[7].k # "none" /\ sl[7].cls # "nostar" /\ PayHolds(sl[7], m.text)) => PayHolds([sl[7] EXCEPT !.ic = TRUE], m.text)
 DisabledNeverMatches == pc = "done" => DisabledNeverMatches0
 NegationInverts == pc = "done" => NegationInverts0
 NoExtNeverHolds == pc = "done" => NoExtNeverHolds0
